@@ -7,7 +7,8 @@ From Coq Require Import String.
 From Coq Require Import ZArith List QArith Qcanon.
 From Batchie Require Import Lib.Sexp Lib.Num Generated.Consts Model.Gibbs Model.GibbsSpec Model.Mvn
   Proofs.C08Sums Proofs.C08Gauss Proofs.C08Cache Proofs.C08Misc Proofs.C08Mgp Proofs.C08Mvn Proofs.C08Final
-  Proofs.C08HorseshoeAlg Proofs.C08Horseshoe Generated.SrcGibbs Proofs.C08Source.
+  Proofs.C08HorseshoeAlg Proofs.C08Horseshoe Generated.SrcGibbs Proofs.C08Source
+  Generated.SrcMvn Generated.SrcGibbsObj Proofs.C08SourceObj.
 Import ListNotations.
 Open Scope Qc_scope.
 
@@ -695,3 +696,192 @@ Print Assumptions C08_model_is_source_update_empty.
 Theorem C08_model_is_source_encode_obs : forall o d, obs_rep o d -> src_encode_obs o = Ok (d_y d, d_cl d, d_dd1 d, d_dd2 d).
 Proof. exact src_encode_obs_is_model. Qed.
 Print Assumptions C08_model_is_source_encode_obs.
+
+(* ------------------------------------------------------------------ source-translation links, second part
+   (Generated/SrcMvn.v, Generated/SrcGibbsObj.v; proofs: Proofs/C08SourceObj.v) *)
+
+(* fast_mvn.sample_mvn_from_precision, the WHOLE function for every argument combination.  It may raise and it draws: it
+   denotes a program of draws whose result is a [result] (Model/Mvn.v: mprog).  [chol] = np.linalg.cholesky is ANY function
+   (Err = LinAlgError), [lin_solve] = np.linalg.solve (only reached for a masked array) any function.  [geq] is equality of
+   such programs up to the extensionality of their continuations. *)
+Theorem C08_model_is_source_sample_mvn_from_precision : forall chol lin_solve Q mu mu_part chol_factor rng,
+  geq (src_sample_mvn_from_precision chol lin_solve Q mu mu_part chol_factor rng) (mvn_general chol Q mu mu_part chol_factor).
+Proof. exact src_sample_mvn_general. Qed.
+Print Assumptions C08_model_is_source_sample_mvn_from_precision.
+
+(* ... as the Gibbs blocks call it - sample_mvn_from_precision(Q, mu_part=b) - it is Model/Mvn.v's sample_mvn on the factor
+   chol returned and the drawn standard-normal vector, or the exception chol raised *)
+Theorem C08_model_is_source_sample_mvn : forall chol lin_solve Q b rng,
+  geq (src_sample_mvn_from_precision chol lin_solve Q None (Some b) false rng) (mvn_prog chol Q b).
+Proof. exact src_sample_mvn_is_model. Qed.
+Print Assumptions C08_model_is_source_sample_mvn.
+
+(* the MVN draw node of the block links becomes the translated function: programs equal with abstract DMvn nodes stay equal
+   when each such node is replaced by the translated sample_mvn_from_precision (left) resp. the model's mvn_prog (right) *)
+Theorem C08_model_is_source_mvn_node : forall chol lin_solve p q, prog_eq p q ->
+  prog_eq (expand_mvn (src_mvn_call chol lin_solve) p) (expand_mvn (fun Q b => mvn_call (mvn_prog chol Q b)) q).
+Proof. exact src_mvn_node. Qed.
+Print Assumptions C08_model_is_source_mvn_node.
+
+(* under np.linalg.cholesky's contract the model's mvn_prog is one standard-normal draw z of the size of Q and returns x with
+   Q m = b, L^T (x - m) = z  (C08_mvn_mean_cov at the size of Q) *)
+Theorem C08_model_is_source_mvn_law : forall chol Q L b, chol_contract chol -> chol Q = Ok L -> length b = length Q ->
+  let D := length Q in let m := mvn_mean D L b in
+  mvn_prog chol Q b = GDraw (DNormalVec (repeat 1 D)) (fun v => GRet (Ok (sample_mvn D L (val_v v) b))) /\
+  (forall j, (j < D)%nat -> sumn D (fun k => vnth (rnth Q j) k * vnth m k) = vnth b j) /\
+  (forall z j, (j < D)%nat -> sumn D (fun k => vnth (rnth L k) j * (vnth (sample_mvn D L z b) k - vnth m k)) = vnth z j).
+Proof. exact mvn_prog_law. Qed.
+Print Assumptions C08_model_is_source_mvn_law.
+
+(* LegacySparseDrugComboImpl.__init__, the WHOLE constructor on the whole object (every attribute it assigns), for any
+   previous content of the object: sizes, options, hyper-parameters recorded, an empty observation store, the initial state
+   init_st (shapes and values of all 17 state attributes).  mult_gamma_proc = False would leave `gam` unassigned. *)
+Theorem C08_model_is_source_init : forall self0 D ndd ncl ic fi ie ls a0 b0 mn mx,
+  src_impl_init self0 (Z.of_nat D) (Z.of_nat ndd) (Z.of_nat ncl) ic fi ie true ls a0 b0 mn mx
+  = Ok (init_obj D ndd ncl ic fi ie true ls a0 b0 mn mx).
+Proof. exact src_impl_init_is_model. Qed.
+Print Assumptions C08_model_is_source_init.
+
+Theorem C08_model_is_source_init_negative : forall self0 nd ndd ncl ic fi ie mgp ls a0 b0 mn mx,
+  (nd < 0 \/ ndd < 0 \/ ncl < 0)%Z -> src_impl_init self0 nd ndd ncl ic fi ie mgp ls a0 b0 mn mx = Err 7%Z.
+Proof. exact src_impl_init_negative. Qed.
+Print Assumptions C08_model_is_source_init_negative.
+
+(* after __init__ every shape hypothesis of the block links C08_model_is_source_*_step holds, and the cache is empty *)
+Theorem C08_model_is_source_init_shapes : forall g, shapes g (init_st g) /\ Mu (init_st g) = [].
+Proof. exact init_shapes. Qed.
+Print Assumptions C08_model_is_source_init_shapes.
+
+(* reset_model, the WHOLE method: W, W0, V2, V1, V0 times 0.0, alpha = 0, prec = 100, Mu = the empty array; nothing else *)
+Theorem C08_model_is_source_reset_model : forall o, src_impl_reset_model o = Ok (set_pi_st o (reset_st (pi_st o))).
+Proof. exact src_impl_reset_is_model. Qed.
+Print Assumptions C08_model_is_source_reset_model.
+
+Theorem C08_model_is_source_reset_shapes : forall g s, shapes g s -> shapes g (reset_st s) /\ Mu (reset_st s) = [].
+Proof. exact reset_shapes. Qed.
+Print Assumptions C08_model_is_source_reset_shapes.
+
+(* every step function keeps the shapes and the cache's length, for well-shaped answers to its draws; a whole sweep started
+   with a (possibly stale, shorter) cache ends with them *)
+Theorem C08_model_is_source_blocks_keep_shapes : forall g d orc b s,
+  in_sweep g d s -> all_rets_ws (in_sweep g d) (step_prog g d orc b s).
+Proof. exact step_keeps. Qed.
+Print Assumptions C08_model_is_source_blocks_keep_shapes.
+
+Theorem C08_model_is_source_sweep_keeps_shapes : forall g d orc s,
+  sweep_ready g d s -> all_rets_ws (in_sweep g d) (mcmc_step g d orc s).
+Proof. exact sweep_keeps. Qed.
+Print Assumptions C08_model_is_source_sweep_keeps_shapes.
+
+(* all thirteen block links at once, their shape hypotheses replaced by [shapes] (default options; D > 0: with D = 0 the
+   code fails at gam[0]) *)
+Theorem C08_model_is_source_block : forall g d orc b s,
+  data_ok d -> (0 < c_D g)%nat -> shapes g s -> (b = BReconstruct \/ length (Mu s) = nobs d) ->
+  prog_eq (to_prog (src_run true true true g d orc b s)) (step_prog g d orc b s).
+Proof. exact src_block_is_model. Qed.
+Print Assumptions C08_model_is_source_block.
+
+(* programs equal on well-shaped answers answer every well-shaped stream alike *)
+Theorem C08_model_is_source_observable_ws : forall p q, prog_eq_ws p q ->
+  forall vals, answers_ok p vals -> run_prog p vals = run_prog q vals.
+Proof. exact prog_eq_ws_run. Qed.
+Print Assumptions C08_model_is_source_observable_ws.
+
+(* every reachable state (after __init__, _update calls, whole sweeps on well-shaped answers, reset_model calls, in any
+   order) is ready for a sweep, and the data are well-formed *)
+Theorem C08_model_is_source_reachable_ready : forall g orc d s, reach g orc d s -> sweep_ready g d s /\ data_ok d.
+Proof. exact reach_ready. Qed.
+Print Assumptions C08_model_is_source_reachable_ready.
+
+(* THE COMPOSITE.  The object built by the translated __init__ (default options), fed by any number of translated _update
+   calls: the translated mcmc_step, running the thirteen translated block methods with the object's own option flags, is
+   the model's sweep on the data the store represents - same draw arguments at every node, equal continuations for every
+   well-shaped drawn value.  No shape hypothesis is left. *)
+Theorem C08_model_is_source_sweep : forall self0 D ndd ncl ic ie a0 b0 mn mx rows orc n, (0 < D)%nat ->
+  exists o o', src_impl_init self0 (Z.of_nat D) (Z.of_nat ndd) (Z.of_nat ncl) ic true ie true true a0 b0 mn mx = Ok o /\
+    src_updates (pi_obs o) rows = Ok o' /\
+    exists d, obs_rep o' d /\ reach (cfg_of o) orc d (pi_st o) /\
+      prog_eq_ws (to_prog (src_mcmc_step (src_run (pi_fake_intercept o) (pi_local_shrinkage o) (pi_mult_gamma_proc o) (cfg_of o) d orc) n (pi_st o)))
+                 (mcmc_step (cfg_of o) d orc (pi_st o)).
+Proof. exact src_sweep_from_init. Qed.
+Print Assumptions C08_model_is_source_sweep.
+
+(* ... and from every reachable state, e.g. the second sweep, or a sweep after more data and a reset *)
+Theorem C08_model_is_source_sweep_reachable : forall g orc d s n, reach g orc d s -> (0 < c_D g)%nat ->
+  prog_eq_ws (to_prog (src_mcmc_step (src_run true true true g d orc) n s)) (mcmc_step g d orc s).
+Proof. exact src_sweep_reachable. Qed.
+Print Assumptions C08_model_is_source_sweep_reachable.
+
+(* ... with every MVN node expanded into the translated sample_mvn_from_precision (chol keeps the size of its argument) *)
+Theorem C08_model_is_source_sweep_mvn : forall chol lin_solve g orc d s n,
+  (forall Q L, chol Q = Ok L -> length L = length Q) -> reach g orc d s -> (0 < c_D g)%nat ->
+  prog_eq_ws (expand_mvn (src_mvn_call chol lin_solve) (to_prog (src_mcmc_step (src_run true true true g d orc) n s)))
+             (expand_mvn (fun Q b => mvn_call (mvn_prog chol Q b)) (mcmc_step g d orc s)).
+Proof. exact src_sweep_mvn. Qed.
+Print Assumptions C08_model_is_source_sweep_mvn.
+
+(* the wrapper class SparseDrugCombo *)
+Theorem C08_model_is_source_sdc_init : forall self0 nS nT D fi ie ls a0 b0 mn mx rng pint ilt ic,
+  src_sdc_init self0 (Z.of_nat nS) (Z.of_nat nT) (Z.of_nat D) fi ie true ls a0 b0 mn mx rng pint ilt ic
+  = Ok (sdc_init_obj nS nT D fi ie true ls a0 b0 mn mx rng pint ilt ic).
+Proof. exact src_sdc_init_is_model. Qed.
+Print Assumptions C08_model_is_source_sdc_init.
+
+(* get_model_state exports exactly the model's [export] of the wrapped object's state (C08_export is about that) *)
+Theorem C08_model_is_source_get_model_state : forall o, src_sdc_get_model_state o = Ok (export (pi_st (sdc_wrapped o))).
+Proof. exact src_sdc_get_model_state_is_model. Qed.
+Print Assumptions C08_model_is_source_get_model_state.
+
+Theorem C08_model_is_source_sdc_n_obs : forall o d, obs_rep (pi_obs (sdc_wrapped o)) d -> src_sdc_n_obs o = Ok (Z.of_nat (nobs d)).
+Proof. exact src_sdc_n_obs_is_model. Qed.
+Print Assumptions C08_model_is_source_sdc_n_obs.
+
+Theorem C08_model_is_source_sdc_reset_model : forall o,
+  src_sdc_reset_model o = Ok (sdc_with_state o (reset_st (pi_st (sdc_wrapped o)))).
+Proof. exact src_sdc_reset_is_model. Qed.
+Print Assumptions C08_model_is_source_sdc_reset_model.
+
+Theorem C08_model_is_source_sdc_set_rng : forall o r,
+  src_sdc_set_rng o r = Ok (set_sdc_rng o (Some r)) /\ src_sdc_rng o = Ok (sdc_rng o).
+Proof. exact src_sdc_set_rng_is_model. Qed.
+Print Assumptions C08_model_is_source_sdc_set_rng.
+
+(* step = one mcmc_step of the wrapped object; read on its state, the model's sweep from every reachable state *)
+Theorem C08_model_is_source_sdc_step : forall run o,
+  geq (src_sdc_step run o)
+      (gbind (src_mcmc_step run (pi_steps (sdc_wrapped o)) (pi_st (sdc_wrapped o))) (fun s => GRet (sdc_with_state o s))).
+Proof. exact src_sdc_step_is_model. Qed.
+Print Assumptions C08_model_is_source_sdc_step.
+
+Theorem C08_model_is_source_sdc_step_sweep : forall g orc d o, reach g orc d (pi_st (sdc_wrapped o)) -> (0 < c_D g)%nat ->
+  prog_eq_ws (to_prog (gbind (src_sdc_step (src_run true true true g d orc) o) (fun o' => GRet (pi_st (sdc_wrapped o')))))
+             (mcmc_step g d orc (pi_st (sdc_wrapped o))).
+Proof. exact src_sdc_step_sweep. Qed.
+Print Assumptions C08_model_is_source_sdc_step_sweep.
+
+(* non-vacuity: the translated functions, executed.  sample_mvn_from_precision with chol answering L = [[2,0],[1,3]] and the
+   drawn z = (1, 1/2), b = (4, 5) returns the x = (5/4, 1/2) of C08_example_mvn after ONE draw of two standard normals ... *)
+Example C08_example_src_mvn :
+  match src_sample_mvn_from_precision (fun _ => Ok [[qofZ 2; 0]; [1; qofZ 3]]) (fun _ z => z)
+          [[qofZ 4; qofZ 2]; [qofZ 2; qofZ 10]] None (Some [qofZ 4; qofZ 5]) false None with
+  | GDraw (DNormalVec vars) k =>
+      qeq_list vars [1; 1] && match k (VV [1; hq]) with GRet (Ok x) => qeq_list x [Q2Qc (5 # 4); hq] | _ => false end
+  | _ => false
+  end = true.
+Proof. vm_compute. reflexivity. Qed.
+
+(* ... a raising Cholesky is the answer VFail of the block's try/except ... *)
+Example C08_example_src_mvn_raises :
+  match src_mvn_call (fun _ => Err 5%Z) (fun _ z => z) [[1]] [1] with GRet VFail => true | _ => false end = true.
+Proof. vm_compute. reflexivity. Qed.
+
+(* ... and the translated constructor on (n_dims, n_drugdoses, n_clines) = (2, 2, 2) builds the example state (with an empty
+   cache), whose first sweep on the example data consumes the 26 well-shaped answers of C08_example_sweep *)
+Example C08_example_src_init :
+  match src_impl_init pi_blank 2 2 2 true true true true true (c_a0 ex_cfg) (c_b0 ex_cfg) (c_minMu ex_cfg) (c_maxMu ex_cfg) with
+  | Ok o => qeq_list (W0 (pi_st o)) (W0 ex_state) && qeq_list (tau (pi_st o)) (tau ex_state) && qeq_list (phi0 (pi_st o)) (phi0 ex_state)
+            && qeq_list (eta2 (pi_st o)) (eta2 ex_state) && qeq_list (gam (pi_st o)) (gam ex_state) && qeq_list (Mu (pi_st o)) []
+            && match snd (run_prog (mcmc_step ex_cfg ex_data ex_orc (pi_st o)) ex_vals) with Some _ => true | None => false end
+  | Err _ => false
+  end = true.
+Proof. vm_compute. reflexivity. Qed.
